@@ -127,9 +127,17 @@ macro_rules! shape_ops {
                         3 => if let Some(r) = cfg.reverse { if twice { b = b.reverse(!r); } b = b.reverse(r); },
                         4 => if let Some(e) = &cfg.easing { b = b.default_easing(e.clone()); },
                         _ => for kf in &cfg.kfs {
-                            let mut k = <$anim>::keyframe(kf.pos);
+                            // a keyframe that defines every animated property is, every other time, captured from a struct with
+                            // `keyframe_from` instead of being spelled out setter by setter
+                            let captured = kf.vals.iter().all(|v| v.is_some()) && !kf.vals.is_empty() && (h >> 17) % 2 == 0;
+                            let mut k = if captured {
+                                let mut t = <$target>::default();
+                                let mut _j = 0usize;
+                                $( t.$af = FromV::from_v(kf.vals[_j].unwrap()); _j += 1; )*
+                                <$anim>::keyframe_from(&t, kf.pos)
+                            } else { <$anim>::keyframe(kf.pos) };
                             let mut _i = 0usize;
-                            $( if let Some(v) = kf.vals[_i] { k = k.$af(FromV::from_v(v)); } _i += 1; )*
+                            $( if !captured { if let Some(v) = kf.vals[_i] { k = k.$af(FromV::from_v(v)); } } _i += 1; )*
                             if let Some(e) = &kf.easing { k = k.easing(e.clone()); }
                             b = b.keyframe(k);
                         },
@@ -215,6 +223,20 @@ pub struct W72 {
 shape_ops!(W72Ops, W72, W72, "W72",
     all: [a00:"f64":f64, a01:"f64":f64, a02:"f64":f64, a03:"f64":f64, a04:"f64":f64, a05:"f64":f64, a06:"f64":f64, a07:"f64":f64, a08:"f64":f64, a09:"f64":f64, a10:"f64":f64, a11:"f64":f64, a12:"f64":f64, a13:"f64":f64, a14:"f64":f64, a15:"f64":f64, a16:"f64":f64, a17:"f64":f64, a18:"f64":f64, a19:"f64":f64, a20:"f64":f64, a21:"f64":f64, a22:"f64":f64, a23:"f64":f64, a24:"f64":f64, a25:"f64":f64, a26:"f64":f64, a27:"f64":f64, a28:"f64":f64, a29:"f64":f64, a30:"f64":f64, a31:"f64":f64, a32:"f64":f64, a33:"f64":f64, a34:"f64":f64, a35:"f64":f64, a36:"f64":f64, a37:"f64":f64, a38:"f64":f64, a39:"f64":f64, a40:"f64":f64, a41:"f64":f64, a42:"f64":f64, a43:"f64":f64, a44:"f64":f64, a45:"f64":f64, a46:"f64":f64, a47:"f64":f64, a48:"f64":f64, a49:"f64":f64, a50:"f64":f64, a51:"f64":f64, a52:"f64":f64, a53:"f64":f64, a54:"f64":f64, a55:"f64":f64, a56:"f64":f64, a57:"f64":f64, a58:"f64":f64, a59:"f64":f64, a60:"f64":f64, a61:"f64":f64, a62:"f64":f64, a63:"f64":f64, a64:"f64":f64, a65:"f64":f64, a66:"f64":f64, a67:"f64":f64, a68:"f64":f64, a69:"f64":f64, a70:"f64":f64, a71:"f64":f64],
     anim: [a00, a01, a02, a03, a04, a05, a06, a07, a08, a09, a10, a11, a12, a13, a14, a15, a16, a17, a18, a19, a20, a21, a22, a23, a24, a25, a26, a27, a28, a29, a30, a31, a32, a33, a34, a35, a36, a37, a38, a39, a40, a41, a42, a43, a44, a45, a46, a47, a48, a49, a50, a51, a52, a53, a54, a55, a56, a57, a58, a59, a60, a61, a62, a63, a64, a65, a66, a67, a68, a69, a70, a71]);
+
+/// field names that are also names of locals (of the same type) in the code the derive generates or may come to generate
+/// (`normalized_time`, `time`, `index`): a field name is only a field name
+#[derive(Animate, Clone, Debug, Default, PartialEq)]
+pub struct N5 {
+    pub a: f32,
+    pub normalized_time: f32,
+    pub time: f32,
+    pub index: f32,
+    pub b: f32,
+}
+shape_ops!(N5Ops, N5, N5, "N5",
+    all: [a:"f32":f32, normalized_time:"f32":f32, time:"f32":f32, index:"f32":f32, b:"f32":f32],
+    anim: [a, normalized_time, time, index, b]);
 
 thread_local! {
     /// set by the runner for the duration of `StateAnimator::set_state` / `advance` only
